@@ -17,6 +17,8 @@ pub enum RpcKind {
     Validate,
     Run,
     Consts,
+    /// delivery of a notification to the output destination (only with `hold_outputs`)
+    Output,
 }
 
 #[derive(Debug)]
@@ -67,6 +69,8 @@ pub struct CtlInner {
     pub handles: Vec<Option<PolicyStateHandle>>,
     /// deliver responses as separate explorer actions
     pub split_replies: bool,
+    /// notifications to the output destination are in flight until the explorer delivers them
+    pub hold_outputs: bool,
 }
 
 #[derive(Default)]
@@ -74,6 +78,25 @@ pub struct Ctl {
     pub inner: Mutex<CtlInner>,
     /// shared logical clock (several sessions of one batch share it)
     pub clock: Arc<std::sync::atomic::AtomicU64>,
+    /// coordination calls (validate / run / consts) that have been issued and not yet returned to
+    /// their caller; a real transport would end these with a timeout
+    pub inflight: std::sync::atomic::AtomicUsize,
+}
+
+pub struct InflightGuard<'a>(&'a Ctl);
+impl Drop for InflightGuard<'_> {
+    fn drop(&mut self) {
+        self.0.inflight.fetch_sub(1, std::sync::atomic::Ordering::SeqCst);
+    }
+}
+impl Ctl {
+    pub fn enter_call(&self) -> InflightGuard<'_> {
+        self.inflight.fetch_add(1, std::sync::atomic::Ordering::SeqCst);
+        InflightGuard(self)
+    }
+    pub fn inflight_calls(&self) -> usize {
+        self.inflight.load(std::sync::atomic::Ordering::SeqCst)
+    }
 }
 
 impl Ctl {
@@ -202,6 +225,7 @@ impl PolicyClient for Client {
     type Error = ClientErr;
 
     async fn validate(&self, to: usize, req: ValidateRequest) -> Result<(), ClientErr> {
+        let _g = self.ctl.enter_call();
         let (id, h) = self.coord(RpcKind::Validate, to).await?;
         let r = h.validate(req).await;
         self.reply_gate(RpcKind::Validate, to).await;
@@ -209,6 +233,7 @@ impl PolicyClient for Client {
     }
 
     async fn run(&self, to: usize, req: RunRequest) -> Result<(), ClientErr> {
+        let _g = self.ctl.enter_call();
         let (id, h) = self.coord(RpcKind::Run, to).await?;
         let r = h.run(req).await;
         self.reply_gate(RpcKind::Run, to).await;
@@ -216,6 +241,7 @@ impl PolicyClient for Client {
     }
 
     async fn consts(&self, to: usize, req: ConstsRequest) -> Result<(), ClientErr> {
+        let _g = self.ctl.enter_call();
         let (id, h) = self.coord(RpcKind::Consts, to).await?;
         let r = h.consts(req).await;
         self.reply_gate(RpcKind::Consts, to).await;
@@ -267,6 +293,26 @@ impl PolicyClient for Client {
             Ok(l) => Ok(format!("{l}")),
             Err(e) => Err(output_err_kind(&e)),
         };
+        // a destination that is not instantaneous: the notification counts as received only once the
+        // explorer has delivered it (the call may be dropped by the caller before that)
+        let rx = {
+            let mut g = self.ctl.inner.lock().unwrap();
+            if g.hold_outputs {
+                let (tx, rx) = oneshot::channel();
+                let id = g.next_id;
+                g.next_id += 1;
+                g.pending.push(Pending { id, kind: RpcKind::Output, from: self.party, to: self.party, is_reply: false, tx: Some(tx) });
+                g.events += 1;
+                Some(rx)
+            } else {
+                None
+            }
+        };
+        if let Some(rx) = rx {
+            if rx.await.is_err() {
+                return Err(ClientErr("destination unreachable".into()));
+            }
+        }
         self.ctl.event(LogEv::Output { party: self.party, result: r });
         Ok(())
     }
